@@ -18,6 +18,17 @@ class PathEnd(Exception):
         self.msg = msg
 
 
+class JoinReached(Exception):
+    pass
+
+
+class TooManyJoinStates(Exception):
+    pass
+
+
+MISSING = object()
+
+
 class ForkReq(Exception):
     """re-execute the current instruction in several states."""
     def __init__(self, states):
@@ -75,6 +86,8 @@ class State:
         self.events = []
         self.labels = []
         self.notes = []
+        self.joins = []
+        self.at_join = None
         self.done = None
 
     def fork(self):
@@ -95,6 +108,8 @@ class State:
         s.expect_panic = self.expect_panic
         s.events = list(self.events)
         s.labels = list(self.labels)
+        s.joins = list(self.joins)
+        s.at_join = None
         s.notes = list(self.notes)
         s.done = None
         return s
@@ -224,6 +239,7 @@ class Exec:
         self.merge_funcs = set(self.opts.get('merge', []))
         self.trace = self.opts.get('trace', False)
         self.init_mode = False
+        self.ifconv = self.opts.get('ifconv', True)
         self.sat_cache = {}
         self.bv_cache = {}
         self.probe_bv = z3.Probe('is-qfbv')
@@ -851,8 +867,187 @@ class Exec:
         else:
             fr.ii = 0
         fr.bi = target
+        if self.trace:
+            print('JOINDBG goto', target, 'joins', st.joins, 'depth', len(st.frames), file=sys.stderr)
+        if st.joins and st.joins[-1] == (len(st.frames), target):
+            raise JoinReached()
 
-    # ------------------------------------------------------------------ calls
+    # ---------------------------------------------------------- if-conversion
+    def ipdoms(self, fn):
+        """immediate post-dominator per block (None = function exit)."""
+        r = fn.get('_ipdom')
+        if r is not None:
+            return r
+        blocks = fn['blocks']
+        n = len(blocks)
+        EXIT = n
+        succs = [list(b['succs']) or [EXIT] for b in blocks] + [[]]
+        full = set(range(n + 1))
+        pdom = [set(full) for _ in range(n + 1)]
+        pdom[EXIT] = {EXIT}
+        changed = True
+        while changed:
+            changed = False
+            for b in range(n - 1, -1, -1):
+                new = set(full)
+                for sx in succs[b]:
+                    new &= pdom[sx]
+                new = new | {b}
+                if new != pdom[b]:
+                    pdom[b] = new
+                    changed = True
+        ip = []
+        for b in range(n):
+            cands = pdom[b] - {b}
+            best = None
+            for c in cands:
+                # the immediate post-dominator is the candidate post-dominated by no other candidate... i.e. closest
+                if all((c == d) or (d in pdom[c]) for d in cands):
+                    best = c
+                    break
+            ip.append(None if best is None or best == EXIT else best)
+        fn['_ipdom'] = ip
+        return ip
+
+    def region_ok(self, fn, b, J, limit):
+        """blocks strictly between If-block b and join J: small and acyclic?"""
+        blocks = fn['blocks']
+        seen = set()
+        stack = [x for x in blocks[b]['succs'] if x != J]
+        while stack:
+            x = stack.pop()
+            if x in seen:
+                continue
+            if x == b:
+                return False
+            seen.add(x)
+            if len(seen) > limit:
+                return False
+            for y in blocks[x]['succs']:
+                if y != J:
+                    stack.append(y)
+        # acyclic check: no block of the region reaches itself inside the region
+        for x in seen:
+            st2 = [y for y in blocks[x]['succs'] if y in seen]
+            vis = set()
+            while st2:
+                y = st2.pop()
+                if y == x:
+                    return False
+                if y in vis:
+                    continue
+                vis.add(y)
+                st2.extend(z for z in blocks[y]['succs'] if z in seen)
+        return True
+
+    def regtypes(self, fn):
+        r = fn.get('_regtypes')
+        if r is None:
+            r = {}
+            for i, t in enumerate(fn.get('params') or []):
+                r['p%d' % i] = t
+            for i, t in enumerate(fn.get('freevars') or []):
+                r['fv%d' % i] = t
+            for b in fn['blocks']:
+                for ins in b['instrs']:
+                    if 'r' in ins and 't' in ins:
+                        r[ins['r']] = ins['t']
+            fn['_regtypes'] = r
+        return r
+
+    def explore_to_join(self, states, depth, J):
+        """run states until they enter block J of the frame at the given depth.
+        returns (joined, escaped)."""
+        joined, escaped = [], []
+        work = list(states)
+        budget = self.opts.get('join_states', 64)
+        while work:
+            st = work.pop()
+            st.joins.append((depth, J))
+            try:
+                while True:
+                    if len(st.frames) < depth:
+                        raise EngineError('left the frame without joining (%s, join block %d, if at %s)' % (st.frames[-1].fid if st.frames else '?', J, getattr(self, '_join_ctx', '?')))
+                    r = self.step(st)
+                    if r is not None:
+                        if r == 'done':
+                            st.joins.pop()
+                            escaped.append(('done', st))
+                            break
+                        st.joins.pop()
+                        for s2 in r:
+                            if s2.joins and s2.joins[-1] == (depth, J):
+                                s2.joins.pop()
+                        rest = []
+                        for s2 in r:
+                            if getattr(s2, 'at_join', None) == (depth, J):
+                                s2.at_join = None
+                                joined.append(s2)
+                            else:
+                                rest.append(s2)
+                        if not rest:
+                            st = None
+                            break
+                        work.extend(rest[1:])
+                        st = rest[0]
+                        st.joins.append((depth, J))
+                        if len(work) + len(joined) > budget:
+                            raise TooManyJoinStates()
+            except JoinReached:
+                st.joins.pop()
+                joined.append(st)
+            except PathEnd as e:
+                st.joins.pop()
+                self.res.ended[e.kind] = self.res.ended.get(e.kind, 0) + 1
+                if e.kind == 'panic':
+                    self.panic_path(st, e.msg, None)
+                    self.res.ended['panic'] -= 1
+            except ForkReq as f:
+                st.joins.pop()
+                for s2 in f.states:
+                    if s2.joins and s2.joins[-1] == (depth, J):
+                        s2.joins.pop()
+                work.extend(f.states)
+        return joined, escaped
+
+    def merge_at_join(self, base_len, joined):
+        """merge states that all sit at the same join point; raises Unmergeable."""
+        first = joined[0]
+        guards = []
+        for f in joined:
+            suffix = f.pc[base_len:]
+            guards.append(b_and(*suffix) if suffix else True)
+        # frames: all but the top must be identical objects in content (they are suspended)
+        top0 = first.frames[-1]
+        rt = self.regtypes(top0.fn)
+        for f in joined[1:]:
+            if len(f.frames) != len(first.frames):
+                raise Unmergeable('frame depth differs')
+            t = f.frames[-1]
+            if t.bi != top0.bi or t.ii != top0.ii or t.fid != top0.fid or len(t.defers) != len(top0.defers):
+                raise Unmergeable('position differs')
+        newregs = dict(joined[-1].frames[-1].regs)
+        for name in list(newregs):
+            vals = [f.frames[-1].regs.get(name, MISSING) for f in joined]
+            v0 = vals[-1]
+            if all(v is v0 for v in vals):
+                continue
+            if any(v is MISSING for v in vals):
+                # defined on some paths only: cannot be live at the join
+                newregs.pop(name, None)
+                continue
+            t = rt.get(name)
+            val = v0
+            for g, v in zip(reversed(guards[:-1]), reversed(vals[:-1])):
+                if v is val:
+                    continue
+                val = self.ite_typed(g, v, val, self.T(t)) if t is not None else self.ite(g, v, val)
+            newregs[name] = val
+        m, _ = self.merge_states(None, joined, base_len, [None] * len(joined), None, pc_prefix=first.pc[:base_len])
+        m.frames = [x.copy() for x in first.frames]
+        m.frames[-1].regs = newregs
+        return m
+
     def do_call(self, st, fr, ins, call, is_defer=False):
         mode = call['mode']
         args = [self.val(fr, a) for a in (call['args'] or [])]
@@ -947,7 +1142,9 @@ class Exec:
         back to ordinary forking when the results cannot be merged."""
         sub = st.fork()
         saved_frames = st.frames
+        saved_joins = st.joins
         sub.frames = [nf]
+        sub.joins = []
         base_len = len(st.pc)
         paths_before = self.res.paths
         ended_before = dict(self.res.ended)
@@ -967,6 +1164,7 @@ class Exec:
             return None
 
         def adopt(f, value):
+            f.joins = list(saved_joins)
             f.frames = [x.copy() for x in saved_frames]
             f2 = f.frames[-1]
             f2.regs[ins['r']] = value
@@ -991,7 +1189,7 @@ class Exec:
         self.res.merges += 1
         return None
 
-    def merge_states(self, st, fin, base_len, values, rtype=None):
+    def merge_states(self, st, fin, base_len, values, rtype=None, pc_prefix=None):
         guards = []
         for f in fin:
             suffix = f.pc[base_len:]
@@ -1005,6 +1203,8 @@ class Exec:
         # value
         val = values[-1]
         for g, v in zip(reversed(guards[:-1]), reversed(values[:-1])):
+            if v is None and val is None:
+                continue
             val = self.ite_typed(g, v, val, rtype) if rtype is not None else self.ite(g, v, val)
         # heap
         heap = dict(first.heap)
@@ -1037,10 +1237,18 @@ class Exec:
         m = first
         m.heap = heap
         m.owned = set()
-        m.pc = list(st.pc[:base_len])
+        m.pc = list(pc_prefix if pc_prefix is not None else st.pc[:base_len])
         disj = b_or(*guards)
         if disj is not True:
-            m.pc.append(disj)
+            # the guards of a complete case split are exhaustive: then nothing is
+            # learnt and the path condition stays small
+            d2 = self.simp(disj)
+            if d2 is not True:
+                ts = z3.Solver()
+                ts.set('timeout', 2000)
+                ts.add(z3.Not(disj))
+                if ts.check() != z3.unsat:
+                    m.pc.append(disj)
         nd = {}
         wr = set()
         conc = None
@@ -1888,15 +2096,76 @@ def h_jump(ex, st, fr, ins):
 def h_if(ex, st, fr, ins):
     c = ex.val(fr, ins['x'])
     succs = fr.blocks[fr.bi]['succs']
+    base_len = len(st.pc)
+    ifblock = fr.bi
+    depth = len(st.frames)
     outs = ex.branch(st, c)
     res = []
+    J = None
+    if len(outs) == 2 and ex.ifconv and not ex.init_mode:
+        J = ex.ipdoms(fr.fn)[ifblock]
+        if J is not None and not ex.region_ok(fr.fn, ifblock, J, ex.opts.get('join_region', 6)):
+            J = None
+    if J is None:
+        for (s2, b) in outs:
+            f2 = s2.frames[-1]
+            ex.goto(s2, f2, succs[0] if b else succs[1])
+            res.append(s2)
+        if len(res) == 1 and res[0] is st:
+            return None
+        return res
+    # if-conversion: run both sides to the join block and merge there
+    if ex.trace:
+        print('JOINDBG ifconv at', fr.fid, ifblock, 'J', J, 'joins', st.joins, [id(s2) for s2, _ in outs], file=sys.stderr)
+    starts = []
+    joined = []
     for (s2, b) in outs:
         f2 = s2.frames[-1]
-        ex.goto(s2, f2, succs[0] if b else succs[1])
-        res.append(s2)
-    if len(res) == 1 and res[0] is st:
-        return None
-    return res
+        s2.joins.append((depth, J))
+        try:
+            ex.goto(s2, f2, succs[0] if b else succs[1])
+            s2.joins.pop()
+            starts.append(s2)
+        except JoinReached:
+            s2.joins.pop()
+            joined.append(s2)
+    try:
+        ex._join_ctx = '%s block %d' % (fr.fid, ifblock)
+        j2, escaped = ex.explore_to_join(starts, depth, J)
+    except TooManyJoinStates:
+        raise EngineError('if-conversion budget exceeded in %s' % fr.fid)
+    joined.extend(j2)
+    out_states = [s for (_, s) in escaped]
+    if escaped:
+        raise EngineError('path left the function inside an if-conversion region (%s)' % fr.fid)
+    if not joined:
+        raise PathEnd('infeasible')
+    if len(joined) == 1:
+        m = joined[0]
+    else:
+        try:
+            m = ex.merge_at_join(base_len, joined)
+            ex.res.merges += 1
+        except Unmergeable as e:
+            ex.res.notes.append('if-conversion fallback (%s block %d): %s' % (fr.fid, ifblock, e))
+            ex.res.forks += len(joined) - 1
+            for s2 in joined:
+                s2.at_join = (depth, J)
+            # the caller's loop holds st: make sure it is the first successor
+            if any(s2 is st for s2 in joined):
+                joined = [st] + [s2 for s2 in joined if s2 is not st]
+            else:
+                st.__dict__.update(joined[0].__dict__)
+                joined[0] = st
+            return joined
+    # the caller's loop holds st: continue in it
+    if ex.trace:
+        print('JOINDBG merged at', fr.fid, ifblock, 'J', J, 'm.joins', m.joins, 'st.joins', st.joins, id(st), id(m), file=sys.stderr)
+    st.__dict__.update(m.__dict__)
+    if st.joins and st.joins[-1] == (depth, J):
+        # an enclosing if-conversion waits at the same join block
+        raise JoinReached()
+    return None
 
 
 @handler('Return')
